@@ -510,6 +510,42 @@ func (w *World) ruleUntrustedInts(rule string) {
 		})
 	}
 	w.stat("computed_array_index_sites", narr)
+	// (e) hash and random: every element access `array[i]` with a computed index lies inside the array (element
+	//     accesses only: sub-slicing of the sponge storage rests on the relational invariant bufIndex+bufSize <= rate,
+	//     which intervals cannot express — see DESIGN, not decided)
+	nh := 0
+	for _, pp := range []string{hashPath, randomPath} {
+		for _, fn := range w.srcFuncs(pp) {
+			if isTestFile(w, fn.Pos()) {
+				continue
+			}
+			instrsFlat(fn, func(ins ssa.Instruction) {
+				var idx, cont ssa.Value
+				switch x := ins.(type) {
+				case *ssa.IndexAddr:
+					idx, cont = x.Index, x.X
+				case *ssa.Index:
+					idx, cont = x.Index, x.X
+				default:
+					return
+				}
+				arr, isArr := deref(cont.Type()).Underlying().(*types.Array)
+				if !isArr {
+					return
+				}
+				if _, isC := constOf(idx); isC {
+					return
+				}
+				nh++
+				lo, hi, ok := w.intBound(idx, ins)
+				key := fmt.Sprintf("%s/array-index:%s[%s]", fnKey(fn), shortCond(render(cont)), shortCond(render(idx)))
+				w.check(ok && lo >= 0 && hi < arr.Len(), rule, key, ins.Pos(),
+					fmt.Sprintf("index in [%d,%d] within the %d-element array", lo, hi, arr.Len()),
+					fmt.Sprintf("array of %d elements is indexed by `%s`, whose value can be %d..%d: out-of-range panic for some inputs or call histories", arr.Len(), shortCond(render(idx)), lo, hi), factStrings(w.factsAt(ins))...)
+			})
+		}
+	}
+	w.stat("computed_array_index_sites_hash_random", nh)
 }
 
 func dependsOnParam(v ssa.Value, p *ssa.Parameter, d int) bool {
